@@ -164,6 +164,22 @@ CHECKS["C05"] = {
     "level_note": "allocation is process-wide (includes the harness's own small allocations); huge-index classes are listed known findings",
 }
 
+CHECKS["C12"] = {
+    "level": "exploration",
+    "engine": "E3 swarm",
+    "rule": ("random histories on a torrent added by info-hash: metadata sizes {tiny, 100, 16383, 16384, 16385, 3x16384, 3x16384+1, 100000} (name stretched to hit the size exactly), 1-3 honest size voters and 0-3 liars (votes 1, size+-1, size+16384, 2^20, 128 MiB, 128 MiB+1, 2^31, none), 10-60 steps of honest blocks, forged blocks (index in {0, n-1, n, n+1, 2^31, 2^32-1}, total_size right/wrong/0/over the cap/absent, payload 0/1/16383/16384/16385/2^20-50 bytes or right length with flipped bytes) sent over the wire through ut_metadata or posted straight into the torrent's mailbox, other message types, peers joining/leaving, request ticks; 1 in 11 histories uses an authentic but unusable dictionary (piece length 0, empty name, odd pieces size, no length, too few hashes). "
+             "At every cut InfoComplete() implies SHA-1(Info)==info-hash; at the end the true size is given a strict plurality and up to three honest passes (each followed by a request tick) must complete the metadata. "
+             "Distinct = class vector x size; non-trivial = at least one forged block and a completed (or correctly refused degenerate) torrent."),
+    "assumptions": E3_ASSUME + ["'completes once an honest block for every index has been delivered after the last corruption' is read as: within three honest passes, each followed by a request tick (the first pass may be consumed by the hash check that discards a poisoned buffer, and the buffer is only re-sized at the next tick)",
+                                "the completion clause is applied only while the true size holds a strict plurality of the size votes cast (the protocol cannot tell sizes apart otherwise)"],
+    "min": {"distinct_nontrivial": {"quick": 100, "thorough": 100}, "counters": {"completed": 1500, "forged-wire": 10000, "forged-mailbox": 3000, "degenerate_refused": 100}},
+    "parts": [{"name": "metadata", "pkg": "c12_metadata", "netns": "isolated", "race": False, "shards": 16},
+              {"name": "metadata-race", "pkg": "c12_metadata", "netns": "isolated", "race": True, "shards": 16, "env": {"VERIF_RACE_SUBSET": "1"}}],
+    "technique": "runtime monitor: authenticity invariant (SHA-1 of the accepted dictionary) checked at every quiescent cut of hostile ut_metadata histories in a virtual-time swarm, bounded-completion oracle, process survival; -race",
+    "level_text": "Hostile and honest metadata blocks and size votes are delivered to the real peer actors and torrent loop in generated orders; whenever the torrent reports complete metadata its SHA-1 must equal the info-hash, degenerate authentic dictionaries must be refused, nothing may crash, and honest delivery after the last forgery must complete within a bounded number of passes. Held on the histories observed.",
+    "level_note": "SHA-1 collisions are outside any oracle",
+}
+
 # ---- entries written by the check builders (kept in their own files) ----
 import os as _os
 _here = _os.path.dirname(_os.path.abspath(__file__))
